@@ -14,7 +14,7 @@
 
 // ---- sanitizer defaults -----------------------------------------------------
 extern "C" __attribute__((used, visibility("default"))) const char* __asan_default_options() {
-    return "exitcode=77:detect_leaks=1:leak_check_at_exit=0:abort_on_error=0:allocator_may_return_null=1:handle_abort=1:detect_stack_use_after_return=0:symbolize=1:malloc_context_size=8";
+    return "exitcode=77:detect_leaks=1:leak_check_at_exit=0:abort_on_error=0:allocator_may_return_null=1:handle_abort=1:detect_stack_use_after_return=0:symbolize=1:malloc_context_size=24";
 }
 extern "C" __attribute__((used, visibility("default"))) const char* __ubsan_default_options() {
     return "print_stacktrace=0:silence_unsigned_overflow=1";
@@ -80,7 +80,11 @@ static void lsanAfterRun(Result& res) {
     if (!any) { unlink(file.c_str()); return; }
     FILE* f = fopen(file.c_str(), "r"); if (!f) return;
     std::map<std::string, long> now; std::map<std::string, std::string> text; char line[2048]; long bytes = 0; std::vector<std::string> frames; bool direct = false;
-    auto flush = [&]() { if (direct && bytes) { std::string sig; int got = 0; for (auto& fr : frames) { if (fr.find("operator new") != std::string::npos || fr.find("malloc") != std::string::npos || fr.find("calloc") != std::string::npos || fr.find("realloc") != std::string::npos) continue; if (got) sig += "<"; sig += fr; if (++got == 3) break; } if (sig.empty()) sig = "unknown"; now[sig] += bytes; if (!text.count(sig)) { std::string t; for (auto& fr : frames) t += fr + " < "; text[sig] = t; } } bytes = 0; frames.clear(); direct = false; };
+    // A leak counts against the library only if one of its functions is in the allocation stack; memory Xerces-C or ICU lose on their own
+    // (Xerces drops 40 bytes when a read fails) is counted as a probe.  The signature names the first two library frames.
+    auto flush = [&]() { if (direct && bytes) { std::string sig; int got = 0; bool anyLib = false; for (auto& fr : frames) if (fr.compare(0, 2, "X:") == 0) anyLib = true;
+        if (!anyLib) { res.count("probe:lsan-leak-without-a-library-frame"); bytes = 0; frames.clear(); direct = false; return; }
+        for (auto& fr0 : frames) { std::string fr = fr0.compare(0, 2, "X:") == 0 ? fr0.substr(2) : fr0; if (fr0.compare(0, 2, "X:") != 0) continue; if (fr.find("operator new") != std::string::npos || fr.find("malloc") != std::string::npos || fr.find("calloc") != std::string::npos || fr.find("realloc") != std::string::npos) continue; if (got) sig += "<"; sig += fr; if (++got == 2) break; } if (sig.empty()) sig = "unknown"; now[sig] += bytes; if (!text.count(sig)) { std::string t; for (auto& fr : frames) t += (fr.compare(0, 2, "X:") == 0 ? fr.substr(2) : fr) + " < "; text[sig] = t; } } bytes = 0; frames.clear(); direct = false; };
     while (fgets(line, sizeof line, f)) {
         std::string l = line;
         if (l.compare(0, 14, "Direct leak of") == 0) { flush(); direct = true; bytes = atol(l.c_str() + 15); }
@@ -89,7 +93,7 @@ static void lsanAfterRun(Result& res) {
             // a frame without a symbol (a static function of a stripped system library): module name and offset identify it
             size_t a = l.find('('), b = a == std::string::npos ? a : l.find(')', a); if (b != std::string::npos) { std::string m = l.substr(a + 1, b - a - 1); size_t sl = m.rfind('/'); if (sl != std::string::npos) m = m.substr(sl + 1); frames.push_back(m); }
         }
-        else if (direct) { size_t q = l.find(" in "); if (l.find("    #") == 0 && q != std::string::npos) { std::string fn = l.substr(q + 4); size_t e = fn.find(" /"); if (e == std::string::npos) e = fn.find(" ("); if (e != std::string::npos) fn = fn.substr(0, e); size_t par = fn.find('('); if (par != std::string::npos) fn = fn.substr(0, par); for (const char* ns : { "xalanc_1_12::", "xercesc_3_2::", "icu_72::" }) { size_t z; while ((z = fn.find(ns)) != std::string::npos) fn.erase(z, strlen(ns)); } while (!fn.empty() && (fn.back() == '\n' || fn.back() == ' ')) fn.pop_back(); frames.push_back(fn); } }
+        else if (direct) { size_t q = l.find(" in "); if (l.find("    #") == 0 && q != std::string::npos) { std::string fn = l.substr(q + 4); size_t e = fn.find(" /"); if (e == std::string::npos) e = fn.find(" ("); if (e != std::string::npos) fn = fn.substr(0, e); size_t par = fn.find('('); if (par != std::string::npos) fn = fn.substr(0, par); const bool lib = fn.find("xalanc_1_12::") != std::string::npos; for (const char* ns : { "xalanc_1_12::", "xercesc_3_2::", "icu_72::" }) { size_t z; while ((z = fn.find(ns)) != std::string::npos) fn.erase(z, strlen(ns)); } if (lib) fn = "X:" + fn; while (!fn.empty() && (fn.back() == '\n' || fn.back() == ' ')) fn.pop_back(); frames.push_back(fn); } }
     }
     flush(); fclose(f); unlink(file.c_str());
     for (auto& kv : now) { long before = g_leakSeen.count(kv.first) ? g_leakSeen[kv.first] : 0; if (kv.second > before) res.violate("leak:lsan", kv.first, "LeakSanitizer: " + std::to_string(kv.second - before) + " byte(s) lost during this run, allocated from " + text[kv.first]); }
